@@ -47,7 +47,8 @@ theorem fixedDist_ok : CodeOk fixedDistLens := by
 /-- what a block encoder must achieve: from any position and any output so far at which its tokens
     are well-formed, the reference decoder reads the block's bits back as the expansion of its tokens -/
 structure EncBlock where
-  bits  : List Nat
+  /-- the block's bits when it starts at bit position `pos` (only stored blocks depend on it: padding) -/
+  bits  : Nat → List Nat
   final : Bool
   toks  : List SymTok
   litLens : Array Nat
@@ -55,13 +56,13 @@ structure EncBlock where
 
 def EncBlock.Decodes (pre : Array UInt8) (maxDist : Nat) (b : EncBlock) : Prop :=
   ∀ (data : Array UInt8) (fuel pos : Nat) (out : Array UInt8), 8 * data.size < fuel + pos →
-    ToksOk b.litLens b.distLens pre maxDist out b.toks → HasBits data pos b.bits →
-    ∃ info, inflateBlock pre maxDist data fuel pos out = .accept (pos + b.bits.length, expandToks pre out b.toks, info) ∧
+    ToksOk b.litLens b.distLens pre maxDist out b.toks → HasBits data pos (b.bits pos) →
+    ∃ info, inflateBlock pre maxDist data fuel pos out = .accept (pos + (b.bits pos).length, expandToks pre out b.toks, info) ∧
       info.final = b.final
 
 /-- a static-Huffman block -/
 def encStatic (final : Bool) (toks : List SymTok) : EncBlock :=
-  { bits := bitsLE ((if final then 1 else 0) + 2) 3 ++ encToks fixedLitLens fixedDistLens toks,
+  { bits := fun _ => bitsLE ((if final then 1 else 0) + 2) 3 ++ encToks fixedLitLens fixedDistLens toks,
     final := final, toks := toks, litLens := fixedLitLens, distLens := fixedDistLens }
 
 theorem encToks_ne_nil (litLens distLens : Array Nat) (h : 1 ≤ litLens.getD 256 0) : ∀ ts, encToks litLens distLens ts ≠ [] := by
@@ -129,7 +130,7 @@ theorem encStatic_decodes (pre : Array UInt8) (maxDist : Nat) (final : Bool) (to
   unfold fixedLitCode fixedDistCode
   rw [hdec]
   dsimp only
-  have e : pos + 3 + (encToks fixedLitLens fixedDistLens toks).length = pos + (encStatic final toks).bits.length := by
+  have e : pos + 3 + (encToks fixedLitLens fixedDistLens toks).length = pos + ((encStatic final toks).bits pos).length := by
     simp only [encStatic, List.length_append, bitsLE_length]; omega
   rw [e]
   exact ⟨_, rfl, by cases final <;> simp [encStatic]⟩
@@ -139,35 +140,35 @@ def expandBlocks (pre : Array UInt8) : Array UInt8 → List EncBlock → Array U
   | out, [] => out
   | out, b :: bs => expandBlocks pre (expandToks pre out b.toks) bs
 
-def blocksBits : List EncBlock → List Nat
-  | [] => []
-  | b :: bs => b.bits ++ blocksBits bs
+def blocksBits : Nat → List EncBlock → List Nat
+  | _, [] => []
+  | pos, b :: bs => b.bits pos ++ blocksBits (pos + (b.bits pos).length) bs
 
 /-- a well-formed stream: every block decodes, has at least one bit, its tokens are well-formed where
     it stands, and exactly the last block is marked final -/
 def BlocksOk (pre : Array UInt8) (maxDist : Nat) : Array UInt8 → List EncBlock → Prop
   | _, [] => False
-  | out, [b] => b.final = true ∧ b.bits ≠ [] ∧ b.Decodes pre maxDist ∧ ToksOk b.litLens b.distLens pre maxDist out b.toks
-  | out, b :: b' :: rest => b.final = false ∧ b.bits ≠ [] ∧ b.Decodes pre maxDist ∧
+  | out, [b] => b.final = true ∧ (∀ p, b.bits p ≠ []) ∧ b.Decodes pre maxDist ∧ ToksOk b.litLens b.distLens pre maxDist out b.toks
+  | out, b :: b' :: rest => b.final = false ∧ (∀ p, b.bits p ≠ []) ∧ b.Decodes pre maxDist ∧
       ToksOk b.litLens b.distLens pre maxDist out b.toks ∧ BlocksOk pre maxDist (expandToks pre out b.toks) (b' :: rest)
 
 /-- A SEQUENCE OF BLOCKS: the reference decoder reads them all, stops after the final one, and has
     produced the expansion. -/
 theorem inflateBlocks_enc (pre : Array UInt8) (maxDist : Nat) (data : Array UInt8) :
     ∀ (bs : List EncBlock) (fuel pos : Nat) (out : Array UInt8) (acc : Array BlockInfo), 8 * data.size + 1 < fuel + pos →
-    BlocksOk pre maxDist out bs → HasBits data pos (blocksBits bs) →
+    BlocksOk pre maxDist out bs → HasBits data pos (blocksBits pos bs) →
     ∃ infos, inflateBlocks pre maxDist data fuel pos out acc =
-      .accept (pos + (blocksBits bs).length, expandBlocks pre out bs, infos) := by
+      .accept (pos + (blocksBits pos bs).length, expandBlocks pre out bs, infos) := by
   intro bs
   induction bs with
   | nil => intro fuel pos out acc _ h; exact absurd h id
   | cons b rest ih =>
     intro fuel pos out acc hfuel hok h
-    obtain ⟨hb, hr⟩ := HasBits.append (a := b.bits) (b := blocksBits rest) h
+    obtain ⟨hb, hr⟩ := HasBits.append (a := b.bits pos) (b := blocksBits (pos + (b.bits pos).length) rest) h
     cases rest with
     | nil =>
       obtain ⟨hfin, hne, hdec, htok⟩ := hok
-      have hsz := hb.le_size hne
+      have hsz := hb.le_size (hne pos)
       obtain ⟨f, rfl⟩ : ∃ f, fuel = f + 1 := ⟨fuel - 1, by omega⟩
       obtain ⟨info, hi, hif⟩ := hdec data f pos out (by omega) htok hb
       unfold inflateBlocks
@@ -175,13 +176,13 @@ theorem inflateBlocks_enc (pre : Array UInt8) (maxDist : Nat) (data : Array UInt
       dsimp only
       rw [hif, hfin]
       simp only [↓reduceIte]
-      have e1 : (blocksBits [b]).length = b.bits.length := by simp [blocksBits]
+      have e1 : (blocksBits pos [b]).length = (b.bits pos).length := by simp [blocksBits]
       rw [e1]
       exact ⟨_, rfl⟩
     | cons b' rest' =>
       obtain ⟨hfin, hne, hdec, htok, hrest⟩ := hok
-      have hsz := hb.le_size hne
-      have hl : 0 < b.bits.length := List.length_pos_iff.mpr hne
+      have hsz := hb.le_size (hne pos)
+      have hl : 0 < (b.bits pos).length := List.length_pos_iff.mpr (hne pos)
       obtain ⟨f, rfl⟩ : ∃ f, fuel = f + 1 := ⟨fuel - 1, by omega⟩
       obtain ⟨info, hi, hif⟩ := hdec data f pos out (by omega) htok hb
       unfold inflateBlocks
@@ -189,10 +190,10 @@ theorem inflateBlocks_enc (pre : Array UInt8) (maxDist : Nat) (data : Array UInt
       dsimp only
       rw [hif, hfin]
       simp only [Bool.false_eq_true, ↓reduceIte]
-      obtain ⟨infos, hrec⟩ := ih f (pos + b.bits.length) (expandToks pre out b.toks) _ (by omega) hrest hr
+      obtain ⟨infos, hrec⟩ := ih f (pos + (b.bits pos).length) (expandToks pre out b.toks) _ (by omega) hrest hr
       rw [hrec]
-      have e1 : (blocksBits (b :: b' :: rest')).length = b.bits.length + (blocksBits (b' :: rest')).length := by
-        show (b.bits ++ blocksBits (b' :: rest')).length = _
+      have e1 : (blocksBits pos (b :: b' :: rest')).length = (b.bits pos).length + (blocksBits (pos + (b.bits pos).length) (b' :: rest')).length := by
+        show (b.bits pos ++ blocksBits (pos + (b.bits pos).length) (b' :: rest')).length = _
         rw [List.length_append]
       rw [e1, Nat.add_assoc]
       exact ⟨_, rfl⟩
@@ -202,9 +203,9 @@ theorem inflateBlocks_enc (pre : Array UInt8) (maxDist : Nat) (data : Array UInt
     exactly the LZ77 expansion of the blocks' tokens as plaintext and exactly their bits consumed —
     whatever follows. -/
 theorem inflateSpec_enc (maxDist : Nat) (data : Array UInt8) (bs : List EncBlock)
-    (hok : BlocksOk #[] maxDist #[] bs) (h : HasBits data 0 (blocksBits bs)) :
+    (hok : BlocksOk #[] maxDist #[] bs) (h : HasBits data 0 (blocksBits 0 bs)) :
     ∃ res, inflateSpec #[] maxDist data 0 = .accept res ∧ res.out = expandBlocks #[] #[] bs ∧
-      res.bitsUsed = (blocksBits bs).length := by
+      res.bitsUsed = (blocksBits 0 bs).length := by
   obtain ⟨infos, hi⟩ := inflateBlocks_enc #[] maxDist data bs (fuelFor data) 0 #[] #[] (by unfold fuelFor; omega) hok h
   unfold inflateSpec
   rw [hi]
